@@ -431,12 +431,48 @@ def stream_paths(ctx, corpus):
                      % (root, layout, level, d, o[1]), rep)
         terms.append('(3, %s, %s, %s, (%s, 0, 0), "", %s)' % (slit(layout), strlit(root), dimslit(d or {}), zlit(level), obs_lit(o)))
         descr.append(rep)
+    # legend cache: LegendCache.load computes the file name from legend_hash(identifier, scale)
+    from mapproxy.cache.legend import LegendCache, Legend, legend_hash
+    scales = [None, 1000.0, 0.5, 25000, float('nan'), float('inf'), -1.0, 1e300, 0.0, '1:25000', '../../../x', '1/../../../../x', '/abs', '..', '', 'a\\..\\b',
+              '%2e%2e%2f', 'x' * 300]
+    for i in range(ctx.n(90, 600)):
+        ident = 'http://upstream.invalid/service?' + gen_text(rng, 6) + rng.choice(['', 'layer', '/../x'])
+        scale = scales[i % len(scales)] if i < 2 * len(scales) else rng.choice(scales + [gen_text(rng, 6), rng.random() * 1e6])
+        root = rng.choice(['/cache/root/legends', '/cache/root/legends/', 'rel/legends'])
+        ext = rng.choice(['png', 'jpeg'])
+
+        def impl3():
+            lg = Legend(id=ident, scale=scale)
+            LegendCache(cache_dir=root, file_ext=ext).load(lg)
+            return legend_hash(ident, scale), lg.location
+        o = call(impl3)
+        if o[0] == 'raised' and o[1] in ('UnicodeEncodeError',):
+            continue     # refused before any file name exists
+        rep = {'function': 'LegendCache(cache_dir, file_ext).load(Legend(id, scale)) -> legend.location', 'identifier': ident, 'scale': repr(scale),
+               'cache_dir': root, 'file_ext': ext, 'output': o[1]}
+        ctx.case(('legend', ident, repr(scale), root, ext), isinstance(scale, str), dict(rep, stream='legend'))
+        ctx.count('legend location')
+        h = ''
+        if o[0] != 'ok' or not isinstance(o[1][1], str):
+            ctx.fail('legend,raised', 'LegendCache.load raised %s for %r' % (o[1], rep), rep)
+            lo = ('raised', None)
+        else:
+            h, loc = o[1]
+            lo = ('ok', loc)
+            if not re.match(r'^[0-9a-f]{32}$', str(h)):
+                ctx.fail('legend,name-is-not-a-digest', 'legend_hash(%r, %r) = %r is not an md5 hex digest: request text reaches the file name' % (ident, scale, h), rep)
+            if not below(root, loc) or posixpath.dirname(posixpath.normpath(loc)) != posixpath.normpath(root):
+                ctx.fail('legend,escapes-legend-dir', 'legend for scale %r is kept at %r, not directly in the legend cache directory %r' % (scale, loc, root), rep)
+        if all(ord(c) < 0x110000 for c in str(h)):
+            terms.append('(5, "", %s, [(%s, [])], (0, 0, 0), %s, %s)' % (strlit(root), strlit(str(h)), slit(ext), obs_lit(lo)))
+            descr.append(rep)
     checker = ("fun c => let '(kind, layout, root, dm, xyz, ext, out) := c in let '(x, y, z) := xyz in "
                "opt_eqb str_eqb (model_path kind layout root dm x y z ext) out")
     defs = ('Definition model_path (kind : Z) (layout : string) (root : str) (dm : dims) (x y z : Z) (ext : string) : option str :=\n'
             '  if kind =? 0 then match location_funcs layout with Some f => Some (tile_path py_lower f root dm x y z ext) | None => None end\n'
             '  else if kind =? 1 then Some (level_location py_lower root dm x)\n'
             '  else if kind =? 3 then file_level_location py_lower layout root dm x\n'
+            '  else if kind =? 5 then Some (legend_location root (match dm with (h, _) :: _ => h | [] => [] end) ext)\n'
             '  else Some (lock_filename root (match dm with (cid, _) :: _ => cid | [] => [] end) x y z).\n')
     ctx.corr_check('paths', MODEL, 'Z * string * str * dims * (Z * Z * Z) * string * option str', terms, checker,
                    lambda i: descr[i], defs=defs)
@@ -848,12 +884,17 @@ def make_config(root, perms=False, relative=False, only_file=False):
 
     def cfg(p):   # the text written into the configuration
         return os.path.relpath(p, base) if relative else p
+
+    def fcfg(p):  # a relative mbtiles / geopackage `filename` is relative to cache.base_dir, not to the configuration file
+        return os.path.relpath(p, cache_root) if relative else p
     y = ['services:', '  demo:', '  tms:', '    use_grid_names: false', '  kml:', '  wmts:', '    restful: true', '    kvp: true',
          "    restful_template: '/{Layer}/{TileMatrixSet}/{Time}/{TileMatrix}/{TileCol}/{TileRow}.{Format}'",
          '    featureinfo_formats:', '      - mimetype: text/plain', '        suffix: txt',
          '  wms:', "    srs: ['EPSG:3857', 'EPSG:4326']", "    image_formats: ['image/png', 'image/jpeg']", '    md:', '      title: C09',
          'sources:', '  src:', '    type: wms', '    wms_opts:', '      featureinfo: true', '      legendgraphic: true', '    req:',
          '      url: http://upstream.invalid/service', '      layers: up', "    forward_req_params: ['time', 'elevation', 'dim_x']",
+         '  src_fwd:', '    type: wms', '    req:', '      url: http://upstream.invalid/direct', '      layers: direct', '      transparent: true',
+         "    forward_req_params: ['vendor', 'cql_filter']",
          'globals:', '  cache:', '    base_dir: %s' % cfg(cache_root), '    lock_dir: %s' % cfg(os.path.join(base, 'locks')),
          '    tile_lock_dir: %s' % cfg(os.path.join(base, 'tile_locks')), '    meta_size: [1, 1]', '    meta_buffer: 0',
          '    link_single_color_images: false'] + (["    directory_permissions: '755'", "    file_permissions: '644'"] if perms else []) + [
@@ -870,13 +911,17 @@ def make_config(root, perms=False, relative=False, only_file=False):
         y += ['    cache:', '      ' + backend]
         d = os.path.join(cache_root, name)
         if backend.startswith('type: mbtiles'):
-            y += ['      filename: %s' % cfg(os.path.join(d, 'tiles.mbtiles'))]
+            y += ['      filename: %s' % fcfg(os.path.join(d, 'tiles.mbtiles'))]
         elif backend.startswith('type: geopackage'):
-            y += ['      filename: %s' % cfg(os.path.join(d, 'tiles.gpkg'))]
+            y += ['      filename: %s' % fcfg(os.path.join(d, 'tiles.gpkg'))]
         else:
             y += ['      directory: %s' % cfg(d)]
         dirs[name] = (d, layout)
-    y += ['layers:']
+    dfwd = os.path.join(cache_root, 'c_fwd')
+    y += ['  c_fwd:', '    grids: [GLOBAL_MERCATOR]', '    sources: [src]', '    format: image/png', '    cache:', '      type: file',
+          '      directory: %s' % cfg(dfwd)]
+    dirs['c_fwd'] = (dfwd, 'tc')
+    y += ['layers:', '  - name: l_fwd', '    title: cache and direct source with forwarded vendor parameter', '    sources: [c_fwd, src_fwd]']
     for name, backend, layout in caches:
         y += ['  - name: l_%s' % name[2:], '    title: layer %s' % name, '    sources: [%s]' % name]
         if name in ('c_tc', 'c_tms', 'c_quad', 'c_arc'):
@@ -1017,6 +1062,20 @@ def gen_requests(ctx, corpus):
     for layer in layers:
         for k, dims in enumerate(matrix):
             reqs.append(getmap(layer, dims, z=1 + k % 2))
+    # GetLegendGraphic (valid layer and format) with hostile SCALE values, deep enough to leave <base_dir>/legends and <base_dir>
+    lscales = ['1000', '1/' + up + 'outside/legend', up + 'outside/legend2', '1:25000', '/outside', 'nan', 'inf', '1e400', '-0', '0x10', '1_000', ' 7 ', '1\0', '..',
+               '%2e%2e%2f' * 6 + 'x', '\uff11\uff10', '..\\..\\..\\..\\x']
+    for k, sc in enumerate(lscales):
+        layer = layers[k % len(layers)]
+        reqs.append(('wms', '/service', [('SERVICE', 'WMS'), ('VERSION', '1.1.1'), ('REQUEST', 'GetLegendGraphic'), ('LAYER', layer), ('FORMAT', 'image/png'),
+                                          ('SCALE', sc)], {}, None, {'legend': True}))
+        reqs.append(('wms', '/service', [('SERVICE', 'WMS'), ('VERSION', '1.3.0'), ('REQUEST', 'GetLegendGraphic'), ('LAYER', 'l_tc'), ('FORMAT', 'image/png'),
+                                          ('SLD_VERSION', '1.1.0'), ('SCALE', sc)], {}, None, {'legend': True}))
+    # parameters forwarded to a direct source (forward_req_params) are copied into the dimensions of the whole query: the file cache of
+    # the same layer gets them too
+    for v in ['x', up + 'outside/vendor', 'a/b', '/outside', '..', 'x\\..\\..', 'v\0', '%2F..%2F..']:
+        reqs.append(wms_getmap('l_fwd', [(rng.choice(['VENDOR', 'vendor']), v)], 1, 0, 0))
+        reqs.append(wms_getmap('l_fwd', [('CQL_FILTER', v), ('TIME', '2020')], 1, 1, 0))
     nwms = ctx.n(70, 500)
     for i in range(nwms):
         layer = rng.choice(['l_tc'] * 4 + ['l_mp', 'l_tms', 'l_rtms', 'l_quad', 'l_arc', 'l_link', 'l_mb', 'l_sq', 'l_gpkg', 'l_cmp1', 'l_cmp2'])
@@ -1220,8 +1279,9 @@ def _stream_wsgi_variant(ctx, corpus, variant, terms, descr):
             t = os.path.join(base or os.getcwd(), t)
         return os.path.realpath(t)
 
-    def judge(kind, event, paths):
-        """None or a (signature, text) describing the forbidden access"""
+    def judge(kind, event, paths, own=None):
+        """None or a (signature, text) describing the forbidden access.  own: the directories of the cache the request is for
+        (its cache directory or the legend cache, plus the lock directories); default: any configured cache / lock directory"""
         if kind == 'exec':
             return ('wsgi,process-started', '%s %s' % (event, paths[0]))
         if kind == 'url':
@@ -1235,7 +1295,13 @@ def _stream_wsgi_variant(ctx, corpus, variant, terms, descr):
             rp = resolve_fs(p)
             if rp is None:
                 continue
-            if any(under(rp, w) for w in write_roots):
+            if any(under(rp, w) for w in (own or write_roots)):
+                continue
+            if own and kind == 'write' and any(under(rp, w) for w in write_roots):
+                return ('wsgi,write-in-the-directory-of-another-cache', '%s of %r (%s): not in the directories of the requested cache %r' % (kind, _fs_text(p), event, own[0]))
+            if own and kind == 'read' and any(under(rp, w) for w in write_roots) and not os.path.isdir(rp):
+                return ('wsgi,read-in-the-directory-of-another-cache', '%s of %r (%s): not in the directories of the requested cache %r' % (kind, _fs_text(p), event, own[0]))
+            if own and any(under(rp, w) for w in write_roots):
                 continue
             if kind == 'read':
                 if any(under(rp, d) for d in data_roots) or rp in exact_reads or rp in sys_path_entries:
@@ -1353,8 +1419,15 @@ def _wsgi_requests(ctx, corpus, audit, conf, conf_dir, cache_dirs, judge, under,
             ctx.count('wsgi fs events', len(events))
             for kind, event, paths in events:
                 ctx.count('wsgi %s event %s %s' % (svc, kind, event))
+            base_dir = os.path.dirname(cache_dirs['c_tc'][0])
+            lock_roots = [os.path.join(os.path.dirname(base_dir), 'locks'), os.path.join(os.path.dirname(base_dir), 'tile_locks')]
+            own = None
+            if which != 'multiapp' and layer and ('c_' + layer[2:]) in cache_dirs:
+                own = [cache_dirs['c_' + layer[2:]][0]] + lock_roots
+            elif meta.get('legend'):
+                own = [os.path.join(base_dir, 'legends')] + lock_roots
             for kind, event, paths in events:
-                bad = judge(kind, event, paths)
+                bad = judge(kind, event, paths, own)
                 if bad:
                     ctx.fail(bad[0], 'request %s?%s (%s): %s' % (path, query[:300], svc, bad[1]),
                              dict(rep, forbidden_access=bad[1], config='harness/props/c09.py make_config'))
@@ -1372,6 +1445,11 @@ def _wsgi_requests(ctx, corpus, audit, conf, conf_dir, cache_dirs, judge, under,
                             if 'single_color_tiles' not in rel:
                                 dparts.add('/'.join(rel[:-depth]))
                 dd = [(k, v) for k, v in q if DIM_RE.search(k)]
+                if layer == 'l_fwd':    # WMSServer.update_query_with_fwd_params: query.dimensions[p] = params[p] for the forwarded names
+                    for fp in sorted(['vendor', 'cql_filter']):
+                        vals = [v for k, v in q if k.lower() == fp]
+                        if vals:
+                            dd = [kv for kv in dd if kv[0].lower() != fp] + [(fp, vals[0])]
                 if len(dparts) == 1 and status == '200':
                     got = dparts.pop()
                     ctx.count('wmsdims observed')
